@@ -92,6 +92,7 @@ func (c *RuntimeContext) Init(p uintptr, codelen int) {
 }
 
 func (c *RuntimeContext) Ptr() uintptr {
+	VerifPtrs(c)
 	header := (*runtime.SliceHeader)(unsafe.Pointer(&c.Ptrs))
 	return uintptr(header.Data)
 }
